@@ -224,6 +224,28 @@ func c15(x *mon.Ctx) {
 	x.Require("device-grid", 9, 3800, 3888)
 	x.Extra["exhaustive"] = true
 
+	// ---- the bytes handed to the caller are the caller's: a later call with another answer must not change them
+	for k := 0; k < 8; k++ {
+		q1, q2 := randBytes(r, 1000+k*37), randBytes(r, 3000+k*11)
+		var rd [64]byte
+		got1, err1 := client.GetRawQuote(&scriptDev{s: &devScript{OutLen: uint32(len(q1)), Quote: q1, ReportData: rd[:], TdReport: make([]byte, 1024)}}, rd)
+		keep := append([]byte(nil), got1...)
+		got2, err2 := client.GetRawQuote(&scriptDev{s: &devScript{OutLen: uint32(len(q2)), Quote: q2, ReportData: rd[:], TdReport: make([]byte, 1024), FillRest: 0x77}}, rd)
+		prob := ""
+		switch {
+		case err1 != nil || err2 != nil:
+			prob = fmt.Sprintf("scripted successes failed: %v %v", err1, err2)
+		case !bytes.Equal(got1, keep) || !bytes.Equal(got1, q1):
+			prob = "the quote returned by an earlier GetRawQuote changed when a later GetRawQuote ran (shared buffer)"
+		case !bytes.Equal(got2, q2):
+			prob = "second quote differs from what the device wrote"
+		}
+		if prob != "" {
+			x.Violation("result-stability", fmt.Sprint(k), prob, "none", k)
+		}
+		x.Note("result-stability", fmt.Sprint(k), prob == "", false, prob == "")
+	}
+
 	// ---- GetQuote == QuoteToProto(GetRawQuote)
 	for k, q := range validQuotes(x, 3) {
 		s := &devScript{OutLen: uint32(len(q)), Quote: q, ReportData: make([]byte, 64), TdReport: make([]byte, 1024)}
@@ -319,6 +341,35 @@ func c15(x *mon.Ctx) {
 		x.Note("provider-unsupported", filepath.Base(path), false, false, prob == "")
 		x.Sample(map[string]any{"provider": "unsupported", "device_path": filepath.Base(path), "error": fmt.Sprint(err)})
 	}
+	// a provider whose answer to IsSupported changes between calls: each call must follow the CURRENT answer
+	if err := flag.Set("tdx_guest_device_path", filepath.Join(dir, "does-not-exist")); err == nil {
+		for _, seq := range [][]bool{{true, false, true}, {false, true, false}, {true, true, false, false, true}} {
+			p := &scriptProvider{quote: valid, err: nil}
+			prob := ""
+			for step, sup := range seq {
+				p.supported = nil
+				if !sup {
+					p.supported = errors.New("not now")
+				}
+				before := p.calls
+				var rd [64]byte
+				got, err := client.GetRawQuote(p, rd)
+				switch {
+				case sup && (err != nil || !bytes.Equal(got, valid) || p.calls != before+1):
+					prob = fmt.Sprintf("step %d: provider reports support now, but its quote was not returned (err=%v, asked=%v)", step, err, p.calls != before)
+				case !sup && (err == nil || got != nil || p.calls != before):
+					prob = fmt.Sprintf("step %d: provider reports no support now, but it was used anyway (err=%v, %d bytes)", step, err, len(got))
+				}
+				if prob != "" {
+					break
+				}
+			}
+			if prob != "" {
+				x.Violation("provider-history", fmt.Sprint(seq), prob, "none", seq)
+			}
+			x.Note("provider-history", fmt.Sprint(seq), false, false, prob == "")
+		}
+	}
 	_ = flag.Set("tdx_guest_device_path", "default")
 	// unsupported kinds of quote provider
 	for name, qp := range map[string]any{"nil": nil, "string": "x", "int": 5} {
@@ -356,16 +407,18 @@ func realDevice(x *mon.Ctx, path string) {
 	for _, inj := range []struct {
 		name, spec string
 		wantErr    string // substring the error must contain ("" = any error)
+		ioctls     int    // requests that must reach the kernel
 	}{
-		{"no-injection(ENOTTY)", "", ""},
-		{"all-ioctls-succeed", "ioctl:retval=0", "invalid Quote size"},
-		{"all-ioctls-EBUSY", "ioctl:error=EBUSY", ""},
-		{"all-ioctls-EINVAL", "ioctl:error=EINVAL", ""},
-		{"all-ioctls-EIO", "ioctl:error=EIO", ""},
-		{"all-ioctls-return-9", "ioctl:retval=9", "unable to get the report"},
-		{"all-ioctls-return-1", "ioctl:retval=1", "unable to get the report"},
+		{"no-injection(ENOTTY)", "", "", 1},
+		{"all-ioctls-succeed", "ioctl:retval=0", "invalid Quote size", 2},
+		{"all-ioctls-EBUSY", "ioctl:error=EBUSY", "", 1},
+		{"all-ioctls-EINVAL", "ioctl:error=EINVAL", "", 1},
+		{"all-ioctls-EIO", "ioctl:error=EIO", "", 1},
+		{"all-ioctls-return-9", "ioctl:retval=9", "unable to get the report", 1},
+		{"all-ioctls-return-1", "ioctl:retval=1", "unable to get the report", 1},
 	} {
-		args := []string{"-f", "-qq", "-o", "/dev/null", "-e", "trace=ioctl"}
+		logf := filepath.Join(filepath.Dir(path), "strace."+strings.ReplaceAll(inj.name, "/", "_")+".log")
+		args := []string{"-f", "-qq", "-o", logf, "-e", "trace=ioctl"}
 		if inj.spec != "" {
 			args = append(args, "-e", "inject="+inj.spec)
 		}
@@ -403,6 +456,13 @@ func realDevice(x *mon.Ctx, path string) {
 			prob = "an error was returned together with data"
 		case inj.wantErr != "" && !strings.Contains(res.Err, inj.wantErr):
 			// the message is informative only; a different error is still an error
+		}
+		// how many requests reached the "kernel": a failed (or non-zero) report request must not be followed by a quote request
+		if b, err := os.ReadFile(logf); err == nil && prob == "" {
+			n := strings.Count(string(b), "ioctl(")
+			if n != inj.ioctls {
+				prob = fmt.Sprintf("%d ioctl requests reached the kernel, expected %d (report request outcome %q must decide whether a quote request follows)", n, inj.ioctls, inj.name)
+			}
 		}
 		if prob != "" {
 			x.Violation("real-device", inj.name, prob, "none", map[string]any{"injection": inj.spec, "stdout": so.String(), "stderr": se.String()})
